@@ -12,6 +12,15 @@
      adj                   TRUE: events idx and idx+1 of a run are exactly one statement of the builder apart (only the
                            traced function's own frame is stopped); FALSE: callees are stopped too, and the number of
                            events may depend on history (caches), so only the many-step relation is required
+     op                    "pt": A was parked at trace event idx while B ran, then A ran to its end;
+                           "intr": A's operation got an exception at trace event idx (the builder is abandoned there:
+                           LazyTable!Interrupt), B's operations ran afterwards on the same object (fields b_..) and on a fresh
+                           object of the same kind (fields f_..);  "fail": A's operation was a multiplication that fails its
+                           precondition inside the table construction, B worked on fresh objects.
+                           The same clauses judge all three: what A leaves behind is a state of LazyTable.
+     blocked               0: B completed while A was parked; 1: B waited for A and completed after A had been resumed
+                           (serialisation, LazyTable variant LOCKED = "finally"); 2: B or A never completed although
+                           nothing was parked (LazyTable!NeverBlockedForever)
      n                     length of the table of the sequential run
      loc_len, loc_ok       A's local list
      pub_len, pub_ok, same self.__precompute before B ran; same = it IS A's local list
@@ -33,7 +42,7 @@ Co(z1, ok) == IF ~ok THEN <<"?", "?", "?">> ELSE IF z1 THEN <<"x", "y", "one">> 
 
 \* LazyTable with its variables replaced by the recorded state
 LT(md, l, p, s, c, rd, o) ==
-    INSTANCE LazyTable WITH EARLY_PUBLISH <- FALSE, SPLIT_ASSIGN <- FALSE, TORN_READ <- FALSE,
+    INSTANCE LazyTable WITH EARLY_PUBLISH <- FALSE, SPLIT_ASSIGN <- FALSE, TORN_READ <- FALSE, LOCKED <- "none", lk <- "free",
                             mode <- md, bpc <- "hidden", loc <- l, pub <- p, shared <- s, coords <- c,
                             tmp <- <<"-", "-", "-">>, rdone <- rd, obs <- o
 
@@ -60,7 +69,8 @@ StepN(x, y)  == LT(x.md, x.l, x.p, x.s, x.c, x.rd, x.o)!EffectStarTo(y.l, y.p, y
 
 Verdict(ev, prev, hasPrev) ==
     LET s == AtS(ev)  b == AtB(ev)  f == AtF(ev) IN
-    IF ev.mode \notin {"table", "scale", "jtable"} THEN "bad-event"
+    IF ev.mode \notin {"table", "scale", "jtable"} \/ ev.op \notin {"pt", "intr", "fail"} THEN "bad-event"
+    ELSE IF ev.blocked = 2 THEN "blocked-forever"
     ELSE IF ev.n # N THEN "table-length"
     ELSE IF ~PubOK(s) THEN "table-partly-visible"
     ELSE IF ~CoordsOK(s) THEN "coords-mixed"
